@@ -336,10 +336,20 @@ class Oracle:
         self.n_ok = self.n_raised = 0
         self.extra_size = 0
 
+    def violate_obs(self, key, what):
+        self.violate(key, what, getattr(self, 'k', -1))
+
     def violate(self, key, what, k):
         self.rep.violate(key, what, {'case': {**self.case, 'ops': self.case['ops'][:k + 1]}, 'at': k})
 
     def __call__(self, obj, item, before, out, exc, decl):
+        try:
+            self.observe(obj, item, before, out, exc, decl)
+        except Exception as e:  # noqa: BLE001  (reading the public state raised: that is itself reportable)
+            self.broken = True
+            self.violate_obs(f'observation-raised:{type(e).__name__}', f'observing the object after {item and item["op"]} raised {e!r}')
+
+    def observe(self, obj, item, before, out, exc, decl):
         n = len(obj.span)
         k = -1 if item is None else self.k + 1
         if item is None:
@@ -444,7 +454,12 @@ def check_cases(ctx, rep, cases, label):
     lines, impls, kept = [], [], []
     for case in cases:
         orc = Oracle(rep, case)
-        line, impl_out, obj = cc.run_case(case, observer=orc)
+        try:
+            line, impl_out, obj = cc.run_case(case, observer=orc)
+        except Exception as e:  # noqa: BLE001  (e.g. the constructor itself fails on the tree under test)
+            rep.violate(f'case-could-not-run:{type(e).__name__}', f'running the history raised outside any operation: {e!r}',
+                        {'case': case, 'at': -1})
+            continue
         key = json.dumps(case, sort_keys=True)
         nontrivial = (orc.n_ok >= 1 and orc.n_raised >= 1) or orc.n_ok >= 3
         rep.case(key, nontrivial=nontrivial,
